@@ -174,6 +174,9 @@ func Run(r *common.Run) error {
 				}
 				runWake(r, false)
 				runWake(r, true)
+			case "close":
+				runCloseFail(r, f[2], false)
+				runCloseFail(r, f[2], true)
 			case "open":
 				runSend(r, f[2] == "1", true, 0, nil, "replay")
 			case "emit":
@@ -204,6 +207,11 @@ func Run(r *common.Run) error {
 	runWake(r, true)
 	r.Mark("case wake 2")
 	runStale(r)
+	for i, f := range []string{"none", "flush", "send", "reply", "deadline"} {
+		r.Mark("case close-fail %d", i)
+		runCloseFail(r, f, false)
+		runCloseFail(r, f, true)
+	}
 	r.Mark("case open")
 	runSend(r, false, true, 0, nil, "send-corpus")
 	runSend(r, false, false, 16, nil, "send-corpus")
